@@ -22,3 +22,4 @@ def run(project, rep):
     from .. import rules_header as H
     rep.rule("P-R5", "what reaches the tokenizer is the whole decoded body: parse_header hands the remainder of the source over uncut (H-R1), so stray text after the last end tag is still there to be refused")
     rep.run(H.h_r1, project, rep)
+    rep.run(H.h_r3, project, rep)
